@@ -547,6 +547,10 @@ func (fv *FV) evalCall(e *Expr, env *Env) Val {
 		return Val{T: fmt.Sprintf("(ityp %s)", arg(0).T), S: "Int"}
 	case "payload":
 		return Val{T: fmt.Sprintf("(ival %s)", arg(0).T), S: "Int"}
+	case "lib":
+		// lib(x): the dynamic type of interface value x is declared in the library
+		x := arg(0)
+		return Val{T: fmt.Sprintf("(lib_type (ityp %s))", x.T), S: "Bool"}
 	case "fnid":
 		return Val{T: fmt.Sprintf("(fn_of %s)", fv.asTermSpec(env, arg(0)).T), S: "Int"}
 	case "fnidOf":
@@ -586,6 +590,7 @@ func (fv *FV) evalCall(e *Expr, env *Env) Val {
 		t := fv.parseTypeName(e.Args[0].Name)
 		x := arg(1)
 		if x.S == "Iface" {
+			env.st.addIdx(fmt.Sprintf("(ival %s)", x.T))
 			return Val{T: fmt.Sprintf("(ival %s)", x.T), S: "Int", Typ: t}
 		}
 		return Val{T: x.T, S: "Int", Typ: t}
